@@ -135,7 +135,7 @@ def _mkdev(transport):
     return env, idv.ISCSIDevice("iscsi://host/target/0", "iqn.test")
 
 
-def h_direct(ctx, transport, raw, good, nsense, reuse=False):
+def h_direct(ctx, transport, raw, good, nsense, reuse=False, first_raw=None):
     """device.execute / SCSI.execute with a plain command, failing command at position `good`"""
     from pyscsi.pyscsi.scsi import SCSI
     from pyscsi.pyscsi.scsi_cdb_inquiry import Inquiry
@@ -153,7 +153,7 @@ def h_direct(ctx, transport, raw, good, nsense, reuse=False):
         # the same command object was already executed once and failed with CHECK CONDITION (other sense)
         sc0 = Scenario(ctx, 0, nsense, poison=False, tag="first_")
         env.ENV.scenario = sc0
-        st0, r0 = ctx.attempt(dev.execute, cmd, en_raw_sense=raw)
+        st0, r0 = ctx.attempt(dev.execute, cmd, en_raw_sense=raw if first_raw is None else first_raw)
         if transport == "iscsi":
             ctx.assume(sc0.status == 2)
         else:
@@ -214,8 +214,9 @@ def obligations(tier):
                 for n in ns:
                     obs.append(Ob("direct/%s/raw=%s/pos=%d/sense=%d" % (tr, raw, good, n), MOD, "h_direct",
                                   {"transport": tr, "raw": raw, "good": good, "nsense": n}))
-            obs.append(Ob("direct-reused-command/%s/raw=%s" % (tr, raw), MOD, "h_direct",
-                          {"transport": tr, "raw": raw, "good": 0, "nsense": 18, "reuse": True}))
+            for fr in (False, True):
+                obs.append(Ob("direct-reused-command/%s/first-raw=%s/raw=%s" % (tr, fr, raw), MOD, "h_direct",
+                              {"transport": tr, "raw": raw, "good": 0, "nsense": 18, "reuse": True, "first_raw": fr}))
         for cmd, spec in L.CDB.items():
             if not spec["facade"]:
                 continue
